@@ -128,7 +128,7 @@ def run(res, replay=None):
                 gb[k2] = [a[t] + w[t] * rng.unit() * 0.999 for t in range(3)]
             mask = [i == sel for i in range(n)] if j % 3 != 2 else ([rng.chance(0.5) for _ in range(n)] if j % 3 == 2 and j % 2 else None)
             seqs.append((inp, gb, mask))
-        wd = os.path.join(C.CACHE, "run", "c07")
+        wd = C.rundir("c07")
         os.makedirs(wd, exist_ok=True)
         cf = os.path.join(wd, "seq.cases")
         with open(cf, "w") as f:
